@@ -86,10 +86,53 @@ func (ew *ErrorWriter) SafeWrite(b []byte) int {
 	return n
 }
 
+// Lengths and counts read from a stream may be hostile, so what is allocated up front for
+// them is bounded (in bytes for byte arrays and strings, in elements for arrays and maps);
+// anything larger grows as data actually arrives.
+const (
+	maxPreallocBytes    = 4096
+	maxPreallocElements = 16
+)
+
+// ArrayCap returns the capacity to pre-allocate for n elements announced by a stream.
+func ArrayCap(n uint32) int {
+	if n > maxPreallocElements {
+		return maxPreallocElements
+	}
+	return int(n)
+}
+
 func ReadString(r *ErrorReader) string {
-	data := make([]byte, ReadUint32(r))
-	_, _ = r.Read(data)
-	return string(data)
+	return string(ReadBytes(r))
+}
+
+// ReadBytes reads a length-prefixed byte array. The memory it uses is bounded by the
+// bytes the stream really delivers, not by the announced length.
+func ReadBytes(r *ErrorReader) []byte {
+	n := int(ReadUint32(r))
+	if n <= maxPreallocBytes {
+		data := make([]byte, n)
+		_, _ = r.Read(data)
+		return data
+	}
+	data := make([]byte, maxPreallocBytes)
+	filled := 0
+	for filled < n {
+		if filled == len(data) {
+			grown := len(data) * 2
+			if grown > n {
+				grown = n
+			}
+			data = append(data, make([]byte, grown-len(data))...)
+		}
+		m, err := r.Read(data[filled:])
+		filled += m
+		if err != nil {
+			// r.Err is set; hand back what did arrive
+			return data[:filled:filled]
+		}
+	}
+	return data[:n:n]
 }
 
 func MustReadStringBytes(buf []byte) string {
